@@ -603,6 +603,317 @@ def c14(text, expect_kind, exp_canon, exp_ordered, loader_name):
 
 HANDLERS.update({'c13': c13, 'c13m': c13, 'c14': c14})
 
+# ---------------------------------------------------------------------------------------------------------------
+# C16: dumping is deterministic and stable
+# ---------------------------------------------------------------------------------------------------------------
+def _permuted(o, rng, memo):
+    """same graph (sharing and cycles kept) with every dict / set rebuilt in a shuffled insertion order"""
+    if id(o) in memo: return memo[id(o)]
+    if isinstance(o, list):
+        n = []; memo[id(o)] = n
+        n.extend(_permuted(x, rng, memo) for x in o); return n
+    if isinstance(o, dict):
+        n = {}; memo[id(o)] = n
+        items = list(o.items()); rng.shuffle(items)
+        for k, v in items: n[k] = _permuted(v, rng, memo)
+        return n
+    if isinstance(o, set):
+        items = list(o); rng.shuffle(items)
+        n = set()
+        for x in items: n.add(x)
+        memo[id(o)] = n; return n
+    return o
+
+def c16(enc, opts, be, perm_seed):
+    import yaml, random
+    from tools.values import decode
+    D, L = _classes(be)
+    if D is None: return dict(bad=[], outcome='no_c')
+    v = decode(enc); o = _dump_opts(opts); bad = []
+    try:
+        t1 = yaml.dump(v, Dumper=D, **o)
+    except Exception as e:
+        return dict(bad=[dict(kind='dump_raises', what='safe_dump raised %s' % type(e).__name__, exc=type(e).__name__, dumper=be)], outcome='dump_raises')
+    t1b = yaml.dump(v, Dumper=D, **o)
+    if t1b != t1: bad.append(dict(kind='not_deterministic', what='two dumps of the same object differ', dumper=be))
+    if o.get('sort_keys', True):
+        w = _permuted(v, random.Random(perm_seed), {})
+        t2 = yaml.dump(w, Dumper=D, **o)
+        if t2 != t1:
+            k = 0
+            while k < min(len(t1), len(t2)) and t1[k] == t2[k]: k += 1
+            bad.append(dict(kind='order_dependent', what='with sort_keys the text depends on the insertion order: %r vs %r' % (t1[max(0, k - 30):k + 30], t2[max(0, k - 30):k + 30]), dumper=be))
+    try:
+        back = yaml.load(t1, Loader=L)
+        t3 = yaml.dump(back, Dumper=D, **o)
+        if t3 != t1:
+            k = 0
+            while k < min(len(t1), len(t3)) and t1[k] == t3[k]: k += 1
+            txt = t1 if isinstance(t1, str) else t1.decode(o['encoding'], 'replace')
+            bad.append(dict(kind='not_fixed_point', what='dump(load(dump(x))) differs from dump(x) at offset %d: %r vs %r' % (k, t1[max(0, k - 30):k + 30], t3[max(0, k - 30):k + 30]), text=txt[:6000], dumper=be))
+    except Exception as e:
+        txt = t1 if isinstance(t1, str) else t1.decode(o['encoding'], 'replace')
+        bad.append(dict(kind='dump_unreadable', what='the dumped text is not loadable (%s)' % type(e).__name__, exc=type(e).__name__, text=txt[:6000], dumper=be))
+    import hashlib
+    return dict(bad=bad, outcome='ok' if not bad else 'bad', digest=hashlib.sha256(t1.encode('utf-8', 'surrogatepass') if isinstance(t1, str) else t1).hexdigest())
+
+HANDLERS.update({'c16': c16})
+
+# ---------------------------------------------------------------------------------------------------------------
+# C12: multi-document streams keep their boundaries ; C15: output honours the formatting options
+# ---------------------------------------------------------------------------------------------------------------
+def _as_text(t, o): return t if isinstance(t, str) else t.decode(o['encoding'], 'surrogatepass')
+
+def c12(encs, opts, be):
+    import yaml
+    from tools.values import decode, show
+    D, L = _classes(be)
+    if D is None: return dict(bad=[], outcome='no_c')
+    docs = [decode(e) for e in encs]; o = _dump_opts(opts); bad = []
+    try:
+        text = yaml.dump_all(docs, Dumper=D, **o)
+    except Exception as e:
+        return dict(bad=[dict(kind='dump_raises', what='dump_all raised %s' % type(e).__name__, exc=type(e).__name__, dumper=be)], outcome='dump_raises')
+    txt = _as_text(text, o)
+    try:
+        back = list(yaml.load_all(text, Loader=L))
+    except Exception as e:
+        return dict(bad=[dict(kind='dump_unreadable', what='load_all rejects what dump_all wrote (%s: %s)' % (type(e).__name__, str(e)[:80].replace('\n', ' ')), exc=type(e).__name__, text=txt[:6000], dumper=be)], outcome='unreadable')
+    canon = bool(o.get('sort_keys', True))
+    if len(back) != len(docs):
+        bad.append(dict(kind='count_differs', what='%d documents dumped, %d loaded' % (len(docs), len(back)), text=txt[:6000], dumper=be))
+    else:
+        for k, (a, b2) in enumerate(zip(docs, back)):
+            if show(a, canon) != show(b2, canon):
+                bad.append(dict(kind='roundtrip_differs', what='document %d of %d differs after dump_all/load_all' % (k, len(docs)), text=txt[:6000], dumper=be)); break
+    # the text of a document does not depend on the documents that follow it (the only text written on behalf of a predecessor is '...')
+    lb = o.get('line_break') if o.get('line_break') in ('\r', '\n', '\r\n') else '\n'
+    for k in range(1, len(docs)):
+        tk = _as_text(yaml.dump_all(docs[:k], Dumper=D, **o), o)
+        if txt.startswith(tk): continue
+        if tk.endswith('...' + lb) and txt.startswith(tk[:-len('...' + lb)]): continue
+        j = 0
+        while j < min(len(tk), len(txt)) and tk[j] == txt[j]: j += 1
+        bad.append(dict(kind='depends_on_followers', what='the text of the first %d document(s) changes when more follow: %r vs %r' % (k, tk[max(0, j - 30):j + 30], txt[max(0, j - 30):j + 30]), text=txt[:6000], dumper=be)); break
+    return dict(bad=bad, outcome='ok' if not bad else 'bad')
+
+def c12n(text, be):
+    """serialize_all(compose_all(text)) composes back to the same number of equal node graphs"""
+    import yaml
+    D = yaml.SafeDumper if be == 'py' else getattr(yaml, 'CSafeDumper', None); L = yaml.SafeLoader if be == 'py' else getattr(yaml, 'CSafeLoader', None)
+    if D is None: return dict(bad=[], outcome='no_c')
+    try: nodes = list(yaml.compose_all(text, Loader=L))
+    except yaml.YAMLError: return dict(bad=[], outcome='invalid_input')
+    except Exception: return dict(bad=[], outcome='invalid_input')
+    nodes = [n for n in nodes if n is not None]
+    def canon(n, seen):
+        if id(n) in seen: return ('ref', seen[id(n)])
+        seen[id(n)] = len(seen)
+        if isinstance(n, yaml.ScalarNode): return ('s', n.tag, n.value)
+        if isinstance(n, yaml.SequenceNode): return ('q', n.tag, [canon(x, seen) for x in n.value])
+        return ('m', n.tag, [(canon(k, seen), canon(v, seen)) for k, v in n.value])
+    try:
+        out = yaml.serialize_all(nodes, Dumper=D)
+        back = list(yaml.compose_all(out, Loader=L))
+    except Exception as e:
+        return dict(bad=[dict(kind='dump_unreadable', what='serialize_all/compose_all failed: %s: %s' % (type(e).__name__, str(e)[:80].replace('\n', ' ')), exc=type(e).__name__, dumper=be)], outcome='unreadable')
+    bad = []
+    if len(back) != len(nodes): bad.append(dict(kind='count_differs', what='%d node graphs serialized, %d composed back' % (len(nodes), len(back)), out_text=out[:3000], dumper=be))
+    else:
+        for k, (a, b2) in enumerate(zip(nodes, back)):
+            if canon(a, {}) != canon(b2, {}): bad.append(dict(kind='roundtrip_differs', what='node graph %d differs after serialize_all/compose_all' % k, out_text=out[:3000], dumper=be)); break
+    return dict(bad=bad, outcome='ok' if not bad else 'bad')
+
+def c15(encs, opts, be, simple):
+    """text-level checks of what dump_all writes under the given options"""
+    import yaml, re, codecs
+    from tools.values import decode
+    D, L = _classes(be)
+    if D is None: return dict(bad=[], outcome='no_c')
+    docs = [decode(e) for e in encs]; o = _dump_opts(opts); bad = []
+    try:
+        out = yaml.dump_all(docs, Dumper=D, **o)
+    except Exception as e:
+        return dict(bad=[dict(kind='dump_raises', what='dump_all raised %s' % type(e).__name__, exc=type(e).__name__, dumper=be)], outcome='dump_raises')
+    enc = o.get('encoding')
+    if (enc is None) != isinstance(out, str):
+        bad.append(dict(kind='result_type', what='dump_all returned %s with encoding=%r' % (type(out).__name__, enc), dumper=be))
+        return dict(bad=bad, outcome='bad')
+    if enc is not None:
+        bom = {'utf-16-le': codecs.BOM_UTF16_LE, 'utf-16-be': codecs.BOM_UTF16_BE}.get(enc)
+        if bom is not None and not out.startswith(bom): bad.append(dict(kind='bom', what='%s output does not start with the BOM' % enc, dumper=be))
+        try: text = out.decode(enc)
+        except Exception as e: return dict(bad=bad + [dict(kind='encoding', what='output is not valid %s' % enc, dumper=be)], outcome='bad')
+        if text.startswith('﻿'): text = text[1:]
+    else: text = out
+    # accepted by the library's own reader
+    try: yaml.reader.Reader(text)
+    except yaml.YAMLError as e: bad.append(dict(kind='unreadable_chars', what='the output contains characters the reader rejects: %s' % str(e)[:80], text=text[:3000], dumper=be))
+    lb = o.get('line_break') if o.get('line_break') in ('\r', '\n', '\r\n') else '\n'
+    if not o.get('allow_unicode'):
+        m = re.search('[^\x20-\x7e\r\n]', text)
+        if m: bad.append(dict(kind='non_ascii', what='without allow_unicode the output contains %r' % m.group(0), text=text[:3000], dumper=be))
+    rest = text.replace(lb, '')
+    if '\r' in rest or '\n' in rest: bad.append(dict(kind='line_break', what='a CR/LF in the output is not the requested line break %r' % lb, text=text[:3000], dumper=be))
+    lines = text.split(lb)
+    if o.get('explicit_start') and sum(1 for l in lines if l.startswith('---')) < len(docs): bad.append(dict(kind='marker', what='explicit_start: fewer --- markers than documents', text=text[:3000], dumper=be))
+    if o.get('explicit_end') and sum(1 for l in lines if l == '...') < len(docs): bad.append(dict(kind='marker', what='explicit_end: fewer ... markers than documents', text=text[:3000], dumper=be))
+    if o.get('version') and sum(1 for l in lines if l.startswith('%YAML ')) < len(docs): bad.append(dict(kind='marker', what='version: fewer %YAML directives than documents', text=text[:3000], dumper=be))
+    if o.get('tags') and sum(1 for l in lines if l.startswith('%TAG ')) < len(docs) * len(o['tags']): bad.append(dict(kind='marker', what='tags: fewer %TAG directives than documents', text=text[:3000], dumper=be))
+    if simple:
+        # values made of short plain scalars in block style: every line is the start of a block collection entry
+        ind = o.get('indent'); best = ind if isinstance(ind, int) and 1 < ind < 10 else 2
+        for l in lines:
+            if not l or l.startswith(('---', '...', '%')): continue
+            n = len(l) - len(l.lstrip(' '))
+            if n % best: bad.append(dict(kind='indent', what='line %r is indented by %d, not a multiple of the effective indent %d' % (l[:40], n, best), text=text[:3000], dumper=be)); break
+    if o.get('canonical') and be == 'py' and not o.get('tags'):      # the helper parser knows no %TAG directive
+        try:
+            sys.path.insert(0, os.path.join(os.path.dirname(os.path.dirname(os.path.dirname(yaml.__file__))), 'tests', 'legacy_tests'))
+            import canonical as _canon
+            ctext = '\n'.join(l for l in text.split(lb) if l != '...')        # the repo's canonical parser (a test helper) only knows LF breaks and no '...' marker
+            ev1 = list(_canon.canonical_parse(ctext))
+            ev2 = list(yaml.parse(ctext))
+            if len(ev1) != len(ev2) or any(type(a) is not type(b2) or getattr(a, 'value', None) != getattr(b2, 'value', None) or getattr(a, 'anchor', None) != getattr(b2, 'anchor', None) for a, b2 in zip(ev1, ev2)):
+                bad.append(dict(kind='canonical', what='the independent canonical parser reads different events from the canonical output', text=text[:3000], dumper=be))
+        except ImportError: pass
+        except Exception as e:
+            bad.append(dict(kind='canonical', what='the independent canonical parser rejects the canonical output: %s: %s' % (type(e).__name__, str(e)[:80]), exc=type(e).__name__, text=text[:3000], dumper=be))
+    return dict(bad=bad, outcome='ok' if not bad else 'bad')
+
+HANDLERS.update({'c12': c12, 'c12n': c12n, 'c15': c15})
+
+# ---------------------------------------------------------------------------------------------------------------
+# C11: every call stands alone
+# ---------------------------------------------------------------------------------------------------------------
+def _api_call(call):
+    """one API call -> canonical result (or the error class and text); generators may be abandoned after k items"""
+    import yaml, io
+    from tools.values import show, decode
+    from tools.layers import scan as LS, parse as LP
+    from tools.events import dec_case, to_yaml_events
+    kind = call[0]
+    be = call[-1]
+    SL = yaml.SafeLoader if be == 'py' else yaml.CSafeLoader; SD = yaml.SafeDumper if be == 'py' else yaml.CSafeDumper
+    FL = yaml.Loader if be == 'py' else yaml.CLoader; FD = yaml.Dumper if be == 'py' else yaml.CDumper
+    try:
+        if kind == 'load': return 'ok ' + show(yaml.load(call[1], Loader=SL))
+        if kind == 'load_all':
+            out = []
+            g = yaml.load_all(call[1], Loader=SL)
+            for i, d in enumerate(g):
+                out.append(show(d))
+                if call[2] is not None and i + 1 >= call[2]: break       # abandon the generator half-way
+            return 'ok ' + ' | '.join(out)
+        if kind == 'scan': return 'ok ' + ' | '.join(LS.kind(t) for t in yaml.scan(call[1], Loader=FL))
+        if kind == 'parse': return 'ok ' + ' | '.join(LP.kind(e) for e in yaml.parse(call[1], Loader=FL))
+        if kind == 'compose':
+            def canon(n, seen):
+                if id(n) in seen: return '*%d' % seen[id(n)]
+                seen[id(n)] = len(seen)
+                if isinstance(n, yaml.ScalarNode): return '%s(%s)' % (n.tag, n.value)
+                if isinstance(n, yaml.SequenceNode): return '%s[%s]' % (n.tag, ','.join(canon(x, seen) for x in n.value))
+                return '%s{%s}' % (n.tag, ','.join(canon(k, seen) + ':' + canon(v, seen) for k, v in n.value))
+            return 'ok ' + ' | '.join(canon(n, {}) if n is not None else 'None' for n in yaml.compose_all(call[1], Loader=SL))
+        if kind == 'dump':
+            r = yaml.dump(decode(call[1]), Dumper=SD, **_dump_opts(call[2]))
+            return 'ok ' + (r if isinstance(r, str) else repr(r))
+        if kind == 'dump_all':
+            r = yaml.dump_all([decode(x) for x in call[1]], Dumper=SD, **_dump_opts(call[2]))
+            return 'ok ' + (r if isinstance(r, str) else repr(r))
+        if kind == 'emit':
+            evs, o = dec_case(call[1]); return 'ok ' + yaml.emit(to_yaml_events(evs), Dumper=FD, **o)
+        if kind == 'serialize':
+            nodes = [n for n in yaml.compose_all(call[1], Loader=SL) if n is not None]
+            return 'ok ' + yaml.serialize_all(nodes, Dumper=SD)
+    except yaml.YAMLError as e: return 'YAMLError %s %s' % (type(e).__name__, str(e)[:200])
+    except RecursionError: return 'RecursionError'
+    except Exception as e: return 'EXC %s %s' % (type(e).__name__, str(e)[:100])
+    return 'unknown call'
+
+def _global_snapshot():
+    """deep, order-sensitive picture of every module- and class-level container of the library"""
+    import yaml, types
+    out = []
+    mods = [m for n, m in sorted(sys.modules.items()) if n == 'yaml' or n.startswith('yaml.')]
+    def canon(v, depth=0):
+        if isinstance(v, dict): return '{' + ','.join('%s:%s' % (canon(k, depth + 1), canon(x, depth + 1)) for k, x in v.items()) + '}'
+        if isinstance(v, (list, tuple)): return '[' + ','.join(canon(x, depth + 1) for x in v) + ']'
+        if isinstance(v, (set, frozenset)): return 's{' + ','.join(sorted(canon(x, depth + 1) for x in v)) + '}'
+        if isinstance(v, (str, int, float, bytes, bool, type(None))): return repr(v)
+        if isinstance(v, type): return 'T:' + v.__name__
+        if callable(v): return 'F:' + getattr(v, '__qualname__', repr(type(v)))
+        if hasattr(v, 'pattern'): return 'R:' + v.pattern
+        return 'O:' + type(v).__name__
+    for m in mods:
+        if not isinstance(m, types.ModuleType) or not getattr(m, '__file__', '') : continue
+        for n, v in sorted(vars(m).items()):
+            if n.startswith('__'): continue
+            if isinstance(v, (dict, list, set)): out.append('%s.%s=%s' % (m.__name__, n, canon(v)))
+            elif isinstance(v, type) and v.__module__ == m.__name__:
+                for a, x in sorted(vars(v).items()):
+                    if isinstance(x, (dict, list, set)): out.append('%s.%s.%s=%s' % (m.__name__, v.__name__, a, canon(x)))
+    return out
+
+def _in_child(fn):
+    import json as _json
+    r, w = os.pipe(); pid = os.fork()
+    if pid == 0:
+        os.close(r)
+        try: out = _json.dumps(fn())
+        except BaseException as e: out = _json.dumps('CHILD-EXC %s: %s' % (type(e).__name__, e))
+        with os.fdopen(w, 'w') as f: f.write(out)
+        os._exit(0)
+    os.close(w)
+    with os.fdopen(r) as f: data = f.read()
+    os.waitpid(pid, 0)
+    import json as _json
+    return _json.loads(data) if data else 'CHILD-DIED'
+
+def c11(calls):
+    """the sequence of calls inside one interpreter vs each call alone in a fresh fork; library-global state before/after"""
+    import yaml
+    ref = [_in_child(lambda c=c: _api_call(c)) for c in calls]
+    def seq():
+        before = _global_snapshot()
+        got = [_api_call(c) for c in calls]
+        import gc; gc.collect()
+        after = _global_snapshot()
+        again = [_api_call(c) for c in calls[:3]]
+        return dict(got=got, changed=[(a, b) for a, b in zip(before, after) if a != b][:3] + ([['<different number of containers>', '']] if len(before) != len(after) else []), again=again)
+    r = _in_child(seq)
+    bad = []
+    if not isinstance(r, dict): return dict(bad=[dict(kind='harness', what=str(r)[:200])], outcome='harness')
+    for i, (a, b2) in enumerate(zip(ref, r['got'])):
+        if a != b2:
+            bad.append(dict(kind='history_dependent', what='call %d (%s) gives %r after the preceding calls but %r in a fresh interpreter' % (i, calls[i][0], b2[:120], a[:120]), index=i)); break
+    for i, (a, b2) in enumerate(zip(ref, r['again'])):
+        if a != b2: bad.append(dict(kind='history_dependent', what='call %d (%s) repeated after the whole sequence gives %r, fresh %r' % (i, calls[i][0], b2[:120], a[:120]), index=i)); break
+    if r['changed']: bad.append(dict(kind='global_state_changed', what='library-global container changed by the calls: %s -> %s' % (str(r['changed'][0][0])[:150], str(r['changed'][0][1])[:150])))
+    return dict(bad=bad, outcome='ok' if not bad else 'bad')
+
+def c11s(texts, be):
+    """loading a stream gives the list of what each document gives on its own"""
+    import yaml
+    from tools.values import show
+    L = yaml.SafeLoader if be == 'py' else getattr(yaml, 'CSafeLoader', None)
+    if L is None: return dict(bad=[], outcome='no_c')
+    single = []
+    for t in texts:
+        try: single.append(show(yaml.load(t, Loader=L)))
+        except yaml.YAMLError as e: return dict(bad=[], outcome='invalid_doc')
+        except Exception as e: return dict(bad=[], outcome='invalid_doc')
+    stream = ''.join(texts)
+    try: got = [show(d) for d in yaml.load_all(stream, Loader=L)]
+    except Exception as e:
+        return dict(bad=[dict(kind='stream_not_list_of_docs', what='documents load one by one but the stream raises %s: %s' % (type(e).__name__, str(e)[:100].replace('\n', ' ')), exc=type(e).__name__, backend=be)], outcome='bad')
+    bad = []
+    if got != single:
+        bad.append(dict(kind='stream_not_list_of_docs', what='load_all(stream) = %r but the documents alone give %r' % (got[:3], single[:3]), backend=be))
+    return dict(bad=bad, outcome='ok' if not bad else 'bad')
+
+HANDLERS.update({'c11': c11, 'c11s': c11s})
+
 def handle(case):
     return HANDLERS[case[0]](*case[1:])
 
